@@ -99,7 +99,11 @@ def generate(rng, config):
             es = []
             for _ in range(rng.choice([0, 1, 2, 3, 5])):
                 es.append([_vertex(rng, cur[0]), _vertex(rng, cur[1])])
-            ops.append({"op": "add_edges_from", "edges": es})
+            ops.append({"op": "add_edges_from", "edges": es,
+                        # the batch is "any iterable of pairs"
+                        "form": rng.choice(["list", "list", "tuple",
+                                            "generator", "iter", "zip",
+                                            "lists", "dictkeys"])})
             added.extend((a, b) for a, b in es)
         elif r < 0.82 and config == "simple":
             if added and rng.random() < 0.7:
@@ -285,7 +289,19 @@ def execute(case, ctx):
                     bad_exc("invalid-insertion-wrong-error", r[1])
         elif kind == "add_edges_from":
             es = [tuple(e) for e in op["edges"]]
-            r = call(G.add_edges_from, es)
+            form = op.get("form", "list")
+            arg = {"list": lambda: list(es), "tuple": lambda: tuple(es),
+                   "generator": lambda: (e for e in es),
+                   "iter": lambda: iter(es),
+                   "zip": lambda: zip([e[0] for e in es],
+                                      [e[1] for e in es]),
+                   "lists": lambda: [list(e) for e in es],
+                   "dictkeys": lambda: dict.fromkeys(es).keys()}[form]()
+            if form == "dictkeys":
+                es = list(dict.fromkeys(es))
+            if form in ("generator", "iter", "zip"):
+                ctx.fault("one_shot_iterable_argument")
+            r = call(G.add_edges_from, arg)
             ok = True
             for (u, v) in es:
                 if ref.valid(u, v):
